@@ -372,20 +372,29 @@ def applyHolding (P : Params) (c : DB) (h : Nat) (rates avgs : TMap) (fromH : Na
 
 /-! ### factoid burns, rewards -/
 
+/-- the burn a factoid transaction makes, if it has the burn shape: exactly one FCT input, no FCT
+    output, exactly one EC output, to the burn address, of amount zero (sync.go:1316-1345) -/
+def burnOf (burnRCD : Addr) (f : FctTx) : Option (Addr × Nat) :=
+  match f.ecOutputs, f.fctInputs with
+  | [out], [inp] =>
+    if f.nFctOutputs > 0 then none
+    else if out.1 != burnRCD then none
+    else if out.2 != 0 then none
+    else some inp
+  | _, _ => none
+
+def applyFct (P : Params) (h : Nat) (burnRCD : Addr) (f : FctTx) : LM Unit :=
+  match burnOf burnRCD f with
+  | none => pure ()
+  | some inp => do
+    addBal P inp.1 tFCT inp.2
+    insertHistBatch { hash := f.txid, height := h, blockorder := -1, ts := f.ts, executed := h }
+    insertHistTx { hash := f.txid, txIndex := 0, action := 4, fromAddr := inp.1, fromAsset := "FCT", fromAmount := inp.2,
+                   toAsset := "pFCT", toAmount := inp.2, outputs := "" }
+    insertLookup { hash := f.txid, txIndex := 0, addr := inp.1 }
+
 def applyFactoidBlock (P : Params) (h : Nat) (burnRCD : Addr) (fcts : List FctTx) : LM Unit :=
-  M.forEach fcts fun f =>
-    match f.ecOutputs, f.fctInputs with
-    | [out], [inp] =>
-      if f.nFctOutputs > 0 then pure ()
-      else if out.1 != burnRCD then pure ()
-      else if out.2 != 0 then pure ()
-      else do
-        addBal P inp.1 tFCT inp.2
-        insertHistBatch { hash := f.txid, height := h, blockorder := -1, ts := f.ts, executed := h }
-        insertHistTx { hash := f.txid, txIndex := 0, action := 4, fromAddr := inp.1, fromAsset := "FCT", fromAmount := inp.2,
-                       toAsset := "pFCT", toAmount := inp.2, outputs := "" }
-        insertLookup { hash := f.txid, txIndex := 0, addr := inp.1 }
-    | _, _ => pure ()
+  M.forEach fcts (applyFct P h burnRCD)
 
 def applyGradedOPR (P : Params) (oh : Int) (ts : Int) (winners : List OprW) : LM Unit :=
   M.forEach winners fun w =>
